@@ -486,7 +486,9 @@ fn dense_c15(thorough: bool, seed: u64) -> Vec<Case> {
     v
 }
 
-fn adjust_c15(mut case: Case) -> Case {
+fn adjust_c15(case: Case) -> Case {
+    // searches get planted inputs (a first match anywhere, also deep inside a chunk, with more matches after it)
+    let mut case = if case.term.is_short_circuit() { pfind::plant(case) } else { case };
     // stated limit of the domain: chunk sizes above 2^20 are not generated for by-value iterator sources
     // (each pull allocates `c` slots up front: that region fails by memory exhaustion, not by a semantic difference)
     if case.source.is_iter_backed() {
@@ -542,7 +544,7 @@ pub fn c15() -> PropDef {
         adjust: adjust_c15,
         assumptions: COMMON_ASSUMPTIONS,
         tiny: no_tiny,
-        long: None,
+        long: Some(({ let mut c = GenCfg::long_sched(); c.pos = ParamPos::OnSource; c.terms = vec![TermClass::Collect, TermClass::CollectX, TermClass::Count, TermClass::ReduceFamily, TermClass::ShortCircuit, TermClass::ShortCircuit, TermClass::ShortCircuit]; c }, 500, 4000)),
     }
 }
 
